@@ -920,3 +920,5 @@ class C04(Prop):
 
 REGISTRY["C04"] = C04()
 import props_cli  # noqa: E402,F401  (registers C12..C17)
+import props_misc  # noqa: E402
+props_misc.register(REGISTRY)
